@@ -353,7 +353,8 @@ func (r *replayer) Delete(key []byte) {
 // - the given seek position
 func bytesPrefixRange(prefix, start []byte) *util.Range {
 	r := util.BytesPrefix(prefix)
-	r.Start = append(r.Start, start...)
+	// r.Start is the caller's prefix slice: don't append into its spare capacity
+	r.Start = append(append(make([]byte, 0, len(r.Start)+len(start)), r.Start...), start...)
 	return r
 }
 
